@@ -22,7 +22,7 @@ import numpy as np
 
 import core
 
-PROOF_MODULES = ["UnytProofs.C17", "UnytProofs.C17Observed", "UnytProofs.C17Chains", "UnytProofs.C17Factor", "UnytProofs.Real.C17Real"]
+PROOF_MODULES = ["UnytProofs.C17", "UnytProofs.C17Observed", "UnytProofs.C17Chains", "UnytProofs.C17Factor", "UnytProofs.C17Offset", "UnytProofs.Real.C17Real"]
 
 PREC = {2: 11, 4: 24, 8: 53, 16: 64}
 # precision the *values* can have: the conversion factor is a Python float (binary64)
